@@ -1,6 +1,50 @@
 import TabulaModel.Util
+import TabulaModel.Model.Bounds
 namespace Tabula.C02H
+open Tabula Tabula.Bounds
 
-def handle (_op : String) (_args : List String) : String := "bad-op"
+def ints? (s : String) : Option (List Int) :=
+  if s == "-" then some [] else (s.splitOn ",").mapM String.toInt?
+
+def nats? (s : String) : Option (List Nat) :=
+  if s == "-" then some [] else (s.splitOn ",").mapM String.toNat?
+
+/-- node: `<num>:p` or `<num>:k<kid>.<kid>…` (`k` alone = no kids) -/
+def parseNode (s : String) : Option (Nat × Node) :=
+  match s.splitOn ":" with
+  | [n, "p"] => n.toNat?.map (·, .page)
+  | [n, ks] =>
+    match ks.toList with
+    | 'k' :: r =>
+      let body := String.ofList r
+      do
+        let n ← n.toNat?
+        let kids ← if body == "" then some [] else (body.splitOn ".").mapM String.toNat?
+        pure (n, .pages kids)
+    | _ => none
+  | _ => none
+
+def handle (op : String) (args : List String) : String :=
+  match op, args with
+  | "c02.xrefstream", [w, idx, len] =>
+    match ints? w, ints? idx, len.toNat? with
+    | some w, some idx, some len =>
+      (match checkXRefStream w idx len with
+       | some (ew, n) => s!"ok {ew} {n}"
+       | none => "err")
+    | _, _, _ => "bad-op"
+  | "c02.grid", [r, c] =>
+    match r.toNat?, c.toNat? with
+    | some r, some c => if gridAccepted r c then "ok" else "err"
+    | _, _ => "bad-op"
+  | "c02.ptree", [kids, nodes] =>
+    match nats? kids, (if nodes == "-" then some [] else (nodes.splitOn ";").mapM parseNode) with
+    | some kids, some g =>
+      (match loadPages g kids with
+       | some (some ls) => s!"ok {ls.length}"
+       | some none => "err"
+       | none => "out-of-fuel")
+    | _, _ => "bad-op"
+  | _, _ => "bad-op"
 
 end Tabula.C02H
